@@ -49,7 +49,7 @@ func editsAt(s site) int {
 		return 0
 	}
 	k := 0
-	if n.K != gm.Num {
+	if n.K != gm.Num || n.I != 0 {
 		k++
 	}
 	if simplerYield(n) {
@@ -84,7 +84,7 @@ func applyEdit(s site, e int) {
 		*s.list = nl
 		return
 	}
-	if n.K != gm.Num {
+	if n.K != gm.Num || n.I != 0 {
 		if e == 0 {
 			(*s.list)[s.i] = gm.NumN(0)
 			return
@@ -93,7 +93,7 @@ func applyEdit(s site, e int) {
 	}
 	if simplerYield(n) {
 		if e == 0 {
-			(*s.list)[s.i] = gm.Y(gm.NumN(1))
+			(*s.list)[s.i] = gm.Y()
 			return
 		}
 		e--
@@ -109,9 +109,9 @@ func applyEdit(s site, e int) {
 	}
 }
 
-// simplerYield: a yield* or a yield with a non-constant operand can be tried as plain `yield 1`.
+// simplerYield: a yield* or a yield with an operand can be tried as a bare `yield`.
 func simplerYield(n *gm.N) bool {
-	return n.K == gm.YStar || n.K == gm.Yield && len(n.X) == 1 && n.X[0].K != gm.Num
+	return n.K == gm.YStar || n.K == gm.Yield && len(n.X) == 1
 }
 
 // fails reports whether (p, hist) still fails with class.
